@@ -14,11 +14,7 @@ mkdir -p $W/repo $W/verif; rsync -a --exclude .git /repo/ $W/repo/; cp known_fin
 if ! (cd $W/repo && patch -p1 -s --no-backup-if-mismatch < "$DIR/patch.diff"); then echo "$ID: PATCH DOES NOT APPLY"; rm -rf $W; exit 3; fi
 B=ok; (cd $W/repo && go build ./... >/dev/null 2>&1) || B=FAIL
 T=$(cd $W/repo && go test -vet=off -count=1 ./... 2>&1 | grep -v "no test files" | grep -vc "^ok")
-alarms=""
-for p in $(bin/ndndcheck -list); do
-  o=$(bin/ndndcheck -prop $p -tier quick -repo $W/repo -verif $W/verif 2>&1 | grep -E "^(VIOLATION|UNDECIDED): " | sed -E 's/^(VIOLATION|UNDECIDED): (C[0-9]+) ([^ ]+) .*/\1 \2 \3/' | sort -u | tr '\n' ';')
-  alarms="$alarms$o"
-done
+alarms=$(GOGC=off GOMEMLIMIT=4GiB bin/ndndcheck -sweep all -repo $W/repo -verif $W/verif 2>&1 | grep -E "^(VIOLATION|UNDECIDED): " | sed -E 's/^(VIOLATION|UNDECIDED): (C[0-9]+|ALL) ([^ ]+) .*/\1 \2 \3/' | sort -u | tr '\n' ';')
 rm -rf $W
 mkdir -p refactorings/$ID; cp "$DIR/patch.diff" refactorings/$ID/
 python3 - "$ID" "$DIR" "$B" "$T" "$alarms" <<'PY'
